@@ -44,7 +44,9 @@ def run(ck):
             if not ck.mine(i):
                 continue
             rng = ck.rng("case", i)
-            h = History(ck, rng, counter, publish_mod)
+            # every fifth history is built for the mechanisms that need a particular shape of file and grid (several
+            # MDMF segments, intact shares out of reach of a first bounded survey): directed cases, not chance
+            h = History(ck, rng, counter, publish_mod, directed=((i // max(1, ck.nshards)) % 5 == 2))
             try:
                 with ck.watchdog(240, "history %d %r" % (i, h.p)):
                     h.run()
@@ -64,7 +66,7 @@ def run(ck):
                      "resigned-share-not-delivered", "older-version-delivered", "newest-delivered",
                      "uncached-reader-read", "damage-between-mapupdate-and-retrieve", "sdmf", "mdmf",
                      "multi-segment-mdmf", "share-larger-than-mapupdate-read", "partial-read-ok",
-                     "sibling-cap-read-ok")
+                     "sibling-cap-read-ok", "late-segment-read-succeeded-on-its-second-survey")
 
 
 def gen_params(rng, tier):
@@ -114,9 +116,20 @@ class Damage(object):
 
 
 class History(object):
-    def __init__(self, ck, rng, counter, publish_mod):
+    def __init__(self, ck, rng, counter, publish_mod, directed=False):
         self.ck, self.rng, self.counter, self.publish_mod = ck, rng, counter, publish_mod
         self.p = gen_params(rng, ck.tier)
+        self.directed = None
+        if directed:
+            k, n = rng.choice([(1, 4), (2, 6), (1, 3), (3, 10), (2, 6)])
+            segsize = rng.choice([60, 100, 128, 250])
+            seg = (segsize + k - 1) // k * k
+            nver = rng.choice([1, 2, 2])
+            self.p = dict(fmt="MDMF", k=k, n=n, nservers=n + rng.choice([1, 2, 3]), segsize=segsize,
+                          sizes=[rng.randint(2, 7) * seg + rng.randint(1, seg - 1) for _ in range(nver)],
+                          profile=rng.choice(["fifo", "per-server-fifo", "free"]))
+            self.directed = ["late-segment", "late-segment", "sibling-cap", "late-segment", "poison-chain",
+                             "late-segment", "truncate-inside", "late-segment"]
         self.g = None
 
     def close(self):
@@ -198,8 +211,11 @@ class History(object):
         for r in range(rounds):
             if self.ck.out_of_time() or self.runaway:
                 break
-            fam = FAMILIES[self.counter[0] % len(FAMILIES)]
-            self.counter[0] += 1
+            if self.directed:
+                fam = self.directed[r % len(self.directed)]
+            else:
+                fam = FAMILIES[self.counter[0] % len(FAMILIES)]
+                self.counter[0] += 1
             if fam == "hdr-field":
                 self.counter[1] += 1
             if fam == "truncate-inside":
@@ -916,6 +932,13 @@ class History(object):
                         ck.hit("uncached-reader-read")
                     status, res = g.wait(node.download_version(use, best), horizon=4 * 3600.0, max_steps=MAX_STEPS)
                     data = res if status == "ok" else None
+        if fam == "late-segment" and status == "ok" and dmg.changed:
+            per = {}
+            for r_ in g.calls:
+                if r_["method"] == "slot_readv" and r_["args"][2] and r_["args"][2][0] == (0, 4000):
+                    per[r_["server"]] = per.get(r_["server"], 0) + 1
+            if any(v >= 2 for v in per.values()):
+                ck.hit("late-segment-read-succeeded-on-its-second-survey")
         if status in ("ok", "err"):
             ck.extra["max_scheduler_steps_of_a_completed_read"] = max(
                 g.sched.steps - steps0, ck.extra.get("max_scheduler_steps_of_a_completed_read", 0))
@@ -1193,3 +1216,4 @@ class Skip(Exception):
 # schedule: same grid (=> survey race/coverage), ordinary damage in place of the actual damage (=> form of damage), only
 # holders of intact shares listed (=> coverage).
 #   seeded/C10-5 (retry appends to the first attempt's consumer)        caught  delivered-unpublished-bytes/late-segment  (family late-segment)
+#   seeded/C10-7 (node cache keyed by storage index, not by cap)          caught  delivered-unpublished-bytes/sibling-cap  (family sibling-cap)
